@@ -37,6 +37,47 @@ func c03Monitor(m *vk.Meta, in mgrIn, out mgrOut) {
 				break
 			}
 		}
+		// "a switchover re-confirms the lock after freezing and again after catch-up, before it promotes": in an iteration that
+		// makes a node writable which it had first frozen, a granted lock request lies between the last freeze step
+		// (SET read_only=1 / STOP IO) and the promotion, and another one after the last catch-up probe of the promoted node
+		if st.State == stateManager {
+			for pi, e := range st.Trans {
+				if e.Kind != "SSetWritable" || e.Err != "" {
+					continue
+				}
+				// the first step of the promotion proper: another node is re-pointed at the new master, or the new
+				// master's own replication configuration is wiped
+				for i := 0; i < pi; i++ {
+					x := st.Trans[i]
+					if (x.Kind == "SChangeSource" && x.Arg == e.Host) || (x.Kind == "SResetReplAll" && x.Host == e.Host) {
+						pi = i
+						break
+					}
+				}
+				lastFreeze := -1
+				for i := 0; i < pi; i++ {
+					x := st.Trans[i]
+					if x.Kind == "SStopIO" || (x.Kind == "SSetRO" && x.Host == e.Host) {
+						lastFreeze = i
+					}
+				}
+				if lastFreeze < 0 {
+					break // not a promotion (the repair of a read-only master)
+				}
+				granted := 0
+				for i := lastFreeze + 1; i < pi; i++ {
+					if st.Trans[i].Kind == "LockAcquire" && st.Trans[i].Resp == "(RBool true)" {
+						granted++
+					}
+				}
+				// one re-check right after the freeze (before positions are read), one after the catch-up
+				if granted < 2 {
+					m.Violation("a switchover re-confirms the lock after freezing and again after catch-up, before it promotes", in,
+						fmt.Sprintf("iteration %d: %s promoted with %d granted lock request(s) between the end of the freeze and the first promotion step", k, e.Host, granted))
+				}
+				break
+			}
+		}
 		if st.State == stateManager {
 			first := true
 			for _, e := range st.Trans {
